@@ -193,7 +193,7 @@ theorem convert_no_panic (ctx : Ctx) (now : Int) (args : List Bytes) (hne : args
 output — (C14T.parse_build); on arbitrary bytes the model keeps the explicit `panic` outcome and the differential
 check has never observed it. -/
 theorem parser_no_panic_on_built (args : List Bytes) (h : sizeOK args) (l : Loc) :
-    ∃ l', runBytes {} l [] (buildRequest args) = .ok [args] {} l' := by
+    ∃ l', runBytes {} l [] (buildRequest args) = .ok [(0, args)] {} l' := by
   have := buildRun args h.1 h.2.1 h.2.2 l [] []
   simp only [List.append_nil, List.nil_append] at this
   exact ⟨⟨some 10, .entry⟩, by rw [this]; simp [runBytes]⟩
